@@ -259,14 +259,22 @@ pub fn make_publish(w: &mut RouterWorld, cfg: &Cfg, ci: usize, t: u8, qos: u8, r
     if qos == 2 {
         w.clients[ci].q2.push_back((pkid, false));
     }
+    // property code 255 (MQTT 5 publisher): topic alias 3 alone, with an empty topic name
+    let alias_only = props == 255 && w.clients[ci].v5;
     Tx::Publish {
-        topic: cfg.topics[t as usize].clone(),
+        topic: if alias_only { String::new() } else { cfg.topics[t as usize].clone() },
         qos,
         retain,
         dup: false,
         pkid,
         payload: RouterWorld::payload_for(tag, empty, w.pad),
-        props: if w.clients[ci].v5 { prop_table(props) } else { None },
+        props: if alias_only {
+            Some(crate::wire::Props { alias: Some(3), ..Default::default() })
+        } else if w.clients[ci].v5 {
+            prop_table(props)
+        } else {
+            None
+        },
     }
 }
 
@@ -884,6 +892,10 @@ fn enabled_c20(w: &RouterWorld, cfg: &Cfg, v: &mut Vec<(Act, u8)>) {
                         }
                         v.push((Act::Pub { c: p, t, qos: q, retain: q == 1, empty: false, props: k }, 0));
                     }
+                }
+                if w.clients[0].v5 {
+                    // alias 3 alone with an empty topic name
+                    v.push((Act::Pub { c: p, t: 0, qos: q, retain: false, empty: false, props: 255 }, 0));
                 }
             }
         }
